@@ -94,9 +94,17 @@ def _resume_forms(ctx, rep):
     rep.floor('resume.statement-end-not-line-end', n, 6, 'end-of-statement tests in the statement parser')
 
 
+def _read_errors_name_the_read_line(ctx, rep):
+    from . import c22, _share
+    _share.share(ctx, rep, c22, ('read.position-restored-before-assignment', 'read.out-of-data'),
+                 'an error raised while READ assigns an item (Overflow, Subscript out of range, Out of DATA) is reported, trapped and resumed at the READ statement: '
+                 'the code pointer is put back from the DATA line first')
+
+
 def check(ctx, rep):
     _position_survives_def_fn(ctx, rep)
     _resume_forms(ctx, rep)
+    _read_errors_name_the_read_line(ctx, rep)
     parse = ctx.fn(INTERP + ':Interpreter.parse')
     tries = [n for n in own_nodes(parse) if isinstance(n, ast.Try)]
     ok = len(tries) == 1 and len(tries[0].handlers) == 1 and norm(tries[0].handlers[0].type) == 'error.BASICError' \
@@ -258,8 +266,22 @@ def variants(ctx):
            in_fn('on_error_goto_', lambda fn: mu.remove_stmt(fn, mu.stmt_has('linenum not in self._program.line_numbers', ast.If))), expect='onerror.validates'),
         Va('clear-stacks-resets-handler', 'break', INTERP,
            in_fn('_clear_stacks', lambda fn: mu.append_last(fn, 'self.on_error = None')), expect='state.writers'),
+        Va('read-assigns-while-in-data-line', 'break', INTERP, in_fn('read_', _assign_before_restore), expect='shared.read.position-restored'),
         Va('trap-error-comment-only', 'neutral', INTERP, in_fn('trap_error', lambda fn: mu.insert_first(fn, 'pass'))),
     ]
+
+
+def _assign_before_restore(fn):
+    # the assignment moves in front of the seek back to the READ statement
+    for n in ast.walk(fn):
+        blk = getattr(n, 'body', None)
+        if not isinstance(blk, list):
+            continue
+        i, j = _idx(blk, 'self._program_code.seek(current)'), _idx(blk, 'self._memory.set_variable(name, indices, value=value)')
+        if i is not None and j is not None and i < j:
+            blk.insert(i, blk.pop(j))
+            return True
+    return False
 
 
 def _catch_all(fn):
